@@ -12,7 +12,7 @@ RULE = ('as C01 but biased to partial delivery: 2-4 recipients, >= 2 retry '
         'flush() calls; non-trivial = some message had >= 2 attempts and a '
         'per-recipient result; distinct = distinct event-log digest')
 COMPONENTS = qc.COMPONENTS
-BUDGET = {'quick': 6000, 'thorough': 400000}
+BUDGET = {'quick': 15000, 'thorough': 400000}
 PROBES = ['retry-round', 'round>=3', 'per-recipient-result', 'mixed-outcome',
           'backoff-0-retry', 'announcement', 'flush-call',
           'backend:dict', 'backend:disk', 'backend:redis', 'backend:cloud',
